@@ -43,6 +43,22 @@ def rsa_pool(rng):
   pool.extend(gen_rsa.degenerate(rng, 256)[:4])
   # keys that are only factored with a LARGE pattern size, to be checked after shorter keys
   pool.append(('pattern63@1024', gen_rsa.pattern_prime(rng, 512, 63, lowbits=16) * gen_rsa.rprime(rng, 512)))
+  # state of the singleton CheckUnseededRand object: an off-size modulus (2046 bits) checked before
+  # a 2048-bit key whose prime is next to a listed unseeded-PRNG output (same size in BYTES)
+  from paranoid_crypto.lib.data import default_storage as _ds
+  for psz in (512, 1024):
+    lst = sorted(_ds.DefaultStorage().GetUnseededRands(psz))
+    if lst:
+      x_ = lst[rng.randrange(len(lst))] | (1 << (psz - 1))
+      pu = int(gmpy2.next_prime(x_))
+      qu = gen_rsa.rprime(rng, psz)
+      if pu.bit_length() == psz and ((pu * qu).bit_length() + 1) // 2 == psz:
+        while True:
+          a_, b_ = gen_rsa.rprime(rng, psz - 1), gen_rsa.rprime(rng, psz - 1)
+          if (a_ * b_).bit_length() == 2 * psz - 2:
+            break
+        pool.append(('UNSEEDED-ONLY offsize%d' % (2 * psz - 2), a_ * b_))
+        pool.append(('UNSEEDED-ONLY unseeded@%d' % (2 * psz), pu * qu))
   pool.append(('pattern127@2048', gen_rsa.pattern_prime(rng, 1024, 127, lowbits=16) * gen_rsa.rprime(rng, 1024)))
   # only found with the 255-bit denominator (too large for d0 = 1): lattice checks only
   from paranoid_crypto.lib import rsa_util as _ru
@@ -65,16 +81,21 @@ def correspondence(rep, rng, tier):
   mism = 0
   full_pool = pool
   for cname, chk in checks.items():
-    pool = full_pool if cname in ('CheckBitPatterns', 'CheckPermutedBitPatterns', 'CheckSizes') else [
-        t for t in full_pool if not t[0].startswith('LATTICE-ONLY')]
+    pool = [t for t in full_pool
+            if (not t[0].startswith('LATTICE-ONLY') or cname in ('CheckBitPatterns', 'CheckPermutedBitPatterns', 'CheckSizes'))
+            and (not t[0].startswith('UNSEEDED-ONLY') or cname in ('CheckUnseededRand', 'CheckSizes'))]
     if cname == 'CheckLowHammingWeight':
       real = rsa_util.CheckLowHammingWeight
       rsa_util.CheckLowHammingWeight = lambda n, real=real: real(n, 2500, 3000)
     try:
       alone = {}
+      import time as _t
+      t0 = _t.time()
+      probe = type(chk)()                      # reference verdicts come from FRESH check objects
+      per_key_fresh = (_t.time() - t0) < 0.3    # (one per key unless the constructor is slow)
       for tag, n in pool:
         k = art.rsa_key(n, rng.choice([65537, 3]))
-        chk.Check([k])
+        (type(chk)() if per_key_fresh else probe).Check([k])
         alone[n] = sig_of(k.test_info, cname)
       # batches: random subsets in random order; then again after the unrelated calls above
       for round_ in range(3 if tier == 'quick' else 8):
@@ -107,7 +128,7 @@ def correspondence(rep, rng, tier):
   # model lines for the alone verdicts (ties the per-key functions to the checks once more)
   b = Batch('chk.fermat')
   for tag, n in pool:
-    if tag.startswith('LATTICE-ONLY'):
+    if tag.startswith('LATTICE-ONLY') or tag.startswith('UNSEEDED-ONLY'):
       continue
     b.add('chk.fermat %s %s' % (H(n), H(100000)), art.fmt_verdict(checks['CheckFermat'], n), tag=tag,
           canon=art.sort_model_verdict)
